@@ -75,10 +75,9 @@ def run(ctx: core.Ctx):
     for palette in ("dyadic", "decimal"):
         kinds = "{" + ", ".join(f'"{k}"' for k in KINDS) + "}"
         head = f'SPECIFICATION Spec\nCONSTANTS Palette = "{palette}"\n  Kinds = {kinds}\n'
-        cfg = write_cfg(f"MC_Terms_{palette}", head + "  Emit = FALSE\n" + "".join(f"INVARIANT {i}\n" for i in INVS) + "CHECK_DEADLOCK FALSE\n")
-        ctx.expect_holds(ctx.tlc("MC_Terms", cfg, workers=16, timeout=2400), f"MC_Terms[{palette}]")
-        cfg = write_cfg(f"Gen_Terms_{palette}", head + "  Emit = TRUE\nINVARIANT EmitInv\nCHECK_DEADLOCK FALSE\n")
-        g = ctx.tlc("MC_Terms", cfg, workers=1, timeout=2400)
+        cfg = write_cfg(f"MC_Terms_{palette}", head + "  Emit = TRUE\n" + "".join(f"INVARIANT {i}\n" for i in INVS) + "INVARIANT EmitInv\nCHECK_DEADLOCK FALSE\n")
+        g = ctx.tlc("MC_Terms", cfg, workers=16, timeout=2400)
+        ctx.expect_holds(g, f"MC_Terms[{palette}]")
         if len(g.emitted) < 10000:
             raise MachineryError(f"only {len(g.emitted)} term cases emitted")
         # group by term instance
